@@ -94,6 +94,10 @@ type ContractSet struct {
 	Axioms   []*Axiom
 	Files    []string
 	Instances map[string][]string // function key -> keys of its instance contracts ("key@label")
+	// HeapObjs: struct types whose objects live in an unbounded, possibly nil-terminated linked heap
+	// (heapobj T Field=ufun ...): qualified type name -> field name -> the uninterpreted function of the object's
+	// reference that stands for the field (read-only heap: stores through such pointers are rejected)
+	HeapObjs map[string]map[string]string
 }
 
 // UFun is an uninterpreted spec function: //@ ufun words(Int) Int
@@ -574,6 +578,26 @@ func (cs *ContractSet) parseLines(lines []string, file, pkgPath, schemaDir strin
 			cs.GhostVars[fields[1]] = fields[2]
 			cur = nil
 			continue
+		case "heapobj":
+			// heapobj T Field=ufun ...: pointers to T are references into a read-only heap; the named fields are
+			// read as ufun(ref)
+			if len(fields) < 2 {
+				return fmt.Errorf("%s: heapobj TYPE Field=ufun ...", where)
+			}
+			if cs.HeapObjs == nil {
+				cs.HeapObjs = map[string]map[string]string{}
+			}
+			m := map[string]string{}
+			for _, fv := range fields[2:] {
+				kv := strings.SplitN(fv, "=", 2)
+				if len(kv) != 2 {
+					return fmt.Errorf("%s: heapobj TYPE Field=ufun ...", where)
+				}
+				m[kv[0]] = kv[1]
+			}
+			cs.HeapObjs[qualifyType(fields[1], pkgPath)] = m
+			cur = nil
+			continue
 		case "ufun":
 			rest := strings.TrimSpace(strings.TrimPrefix(l, "ufun"))
 			op := strings.Index(rest, "(")
@@ -631,12 +655,16 @@ func (cs *ContractSet) parseLines(lines []string, file, pkgPath, schemaDir strin
 			cs.RecFuns[rf.Name] = rf
 			cur = nil
 			continue
-		case "spec", "lemma":
+		case "spec", "lemma", "absdef":
+			// absdef name(a, b) = expr    (abstraction function: the meaning of the uninterpreted function `name` where its
+			//                              first argument is a modelled object; elsewhere - a reference into the
+			//                              read-only heap - the function stays uninterpreted)
 			// spec name(a, b) = expr      (macro)
 			// lemma name(a, b) = expr     (macro over integers whose universal closure is proved as an obligation
 			//                              `lemma.name` of every contract that instantiates it)
 			isLemma := strings.HasPrefix(l, "lemma")
-			rest := strings.TrimSpace(strings.TrimPrefix(strings.TrimPrefix(l, "spec"), "lemma"))
+			isAbs := strings.HasPrefix(l, "absdef")
+			rest := strings.TrimSpace(strings.TrimPrefix(strings.TrimPrefix(strings.TrimPrefix(l, "spec"), "lemma"), "absdef"))
 			eq := strings.Index(rest, "=")
 			op := strings.Index(rest, "(")
 			cp := strings.Index(rest, ")")
@@ -662,7 +690,11 @@ func (cs *ContractSet) parseLines(lines []string, file, pkgPath, schemaDir strin
 			sf.Expr = e
 			sf.Lemma = isLemma
 			sf.Pkg = pkgPath
-			cs.SpecFuns[sf.Name] = sf
+			if isAbs {
+				cs.SpecFuns["abs:"+sf.Name] = sf
+			} else {
+				cs.SpecFuns[sf.Name] = sf
+			}
 			cur = nil
 			continue
 		}
